@@ -1,6 +1,7 @@
 (* C12 — Filters mean what they say; range and count shortcuts never change results.
    This file holds only the property theorems, each closed by a lemma of Proofs/. *)
 From T38 Require Import Base.Bytes Model.Glob Proofs.GlobProofs.
+From T38 Require Import Model.Where Proofs.WhereProofs.
 
 (* A name accepted by the matcher lies inside the range Parse hands to the range-limited
    iterations (KEYS, PDEL, HOOKS/CHANS, PDELHOOK/PDELCHAN, SCAN/SEARCH MATCH), in both directions. *)
@@ -30,3 +31,113 @@ Example c12_nonvacuous :
   prefix_ends_ff [104; 101; STAR; 111] = false /\
   unlimited (parse [104; 101; STAR; 111] false) = false.
 Proof. vm_compute. auto. Qed.
+
+(* ---------------- WHERE / WHEREIN ---------------- *)
+
+(* The transcribed Value.Less is the documented order (vcompare: kinds Null < False < Number <
+   String < True < JSON, numbers numeric, strings ASCII case-insensitive, the rest byte-wise). *)
+Theorem c12_less_is_documented_order : forall a b,
+  is_nan a = false -> is_nan b = false -> value_less a b = is_lt (vcompare a b).
+Proof. exact value_less_spec. Qed.
+Print Assumptions c12_less_is_documented_order.
+
+(* WHERE field min max keeps exactly the values with  min <(=) v <(=) max, each bound exclusive
+   iff it was written with "(" — for values and bounds of every kind (NaN apart). *)
+Theorem c12_where_spec : forall w v,
+  is_op (v_data (w_min w)) = false ->
+  is_nan (w_min w) = false -> is_nan (w_max w) = false -> is_nan v = false ->
+  match_field w v = in_interval (w_minx w) (w_min w) (w_maxx w) (w_max w) v.
+Proof. exact where_range_spec. Qed.
+Print Assumptions c12_where_spec.
+
+(* WHERE field OP operand is the plain comparison, for the six operators. *)
+Theorem c12_where_ops_spec : forall w v,
+  is_nan (w_max w) = false -> is_nan v = false ->
+  (v_data (w_min w) = OP_LT -> match_field w v = is_lt (vcompare v (w_max w))) /\
+  (v_data (w_min w) = OP_LE -> match_field w v = is_le (vcompare v (w_max w))) /\
+  (v_data (w_min w) = OP_GT -> match_field w v = is_gt (vcompare v (w_max w))) /\
+  (v_data (w_min w) = OP_GE -> match_field w v = is_ge (vcompare v (w_max w))) /\
+  (v_data (w_min w) = OP_EQ -> match_field w v = is_eq (vcompare v (w_max w))) /\
+  (v_data (w_min w) = OP_NE -> match_field w v = negb (is_eq (vcompare v (w_max w)))).
+Proof. exact where_ops_spec. Qed.
+Print Assumptions c12_where_ops_spec.
+
+(* WHEREIN keeps exactly the values equal to a listed one. *)
+Theorem c12_wherein_spec : forall vals v,
+  wherein_match vals v = existsb (fun val => value_equals val v) vals.
+Proof. exact wherein_spec. Qed.
+Print Assumptions c12_wherein_spec.
+
+(* The value order is a strict weak order: irreflexive, transitive, asymmetric, "neither is less"
+   (Equals) is transitive through any non-NaN value, and any two values are ordered or Equal. *)
+Theorem c12_less_strict_order :
+  (forall a, value_less a a = false) /\
+  (forall a b c, value_less a b = true -> value_less b c = true -> value_less a c = true) /\
+  (forall a b, value_less a b = true -> value_less b a = false) /\
+  (forall a b c, is_nan b = false ->
+     value_equals a b = true -> value_equals b c = true -> value_equals a c = true) /\
+  (forall a b, value_less a b = true \/ value_equals a b = true \/ value_less b a = true).
+Proof. exact less_strict_order. Qed.
+Print Assumptions c12_less_strict_order.
+
+(* The hypothesis is_nan b = false cannot be dropped (float64 NaN is unordered): 1 == NaN == 2. *)
+Theorem c12_equals_nan_intransitive :
+  exists a b c, value_equals a b = true /\ value_equals b c = true /\ value_equals a c = false.
+Proof. exact equals_nan_intransitive. Qed.
+Print Assumptions c12_equals_nan_intransitive.
+
+(* The lower-casing of the two WHERE bounds by the command parser does not change the interval
+   for String / Number bounds and for bounds whose data is lower-case already.  Partial: it does
+   change it for a JSON bound containing an upper-case letter (c12_where_json_bound_case). *)
+Theorem c12_where_bound_lowercase_partial : forall minx lo maxx hi v,
+  lower_safe lo -> lower_safe hi ->
+  in_interval minx (lower_value lo) maxx (lower_value hi) v = in_interval minx lo maxx hi v.
+Proof. exact where_make_interval. Qed.
+Print Assumptions c12_where_bound_lowercase_partial.
+
+Theorem c12_where_json_bound_case :
+  let j := {| v_kind := KJSON; v_data := [123; 34; 65; 34; 58; 49; 125]; v_num := Fin 0 |} in
+  let op := {| v_kind := KString; v_data := OP_EQ; v_num := Fin 0 |} in
+  match_field (where_make false op false j) j = false /\ value_equals j j = true.
+Proof. exact where_make_json_case. Qed.
+Print Assumptions c12_where_json_bound_case.
+
+(* An object is kept iff every WHERE and every WHEREIN accepts the value of its field, a missing
+   field reading as ZeroValue (Number 0). *)
+Theorem c12_field_match_spec : forall ws wis fs,
+  field_match ws wis fs =
+  forallb (fun nw => match_field (snd nw) (get_field fs (fst nw))) ws &&
+  forallb (fun nv => wherein_match (snd nv) (get_field fs (fst nv))) wis.
+Proof. exact field_match_spec. Qed.
+Print Assumptions c12_field_match_spec.
+
+Theorem c12_missing_field_reads_zero : forall fs name,
+  (forall n v, In (n, v) fs -> n <> name) -> get_field fs name = ZeroValue.
+Proof. exact get_field_missing. Qed.
+Print Assumptions c12_missing_field_reads_zero.
+
+(* COUNT = number of IDS, in both directions, and DESC only reverses. *)
+Theorem c12_count_is_ids : forall desc objs ws wis,
+  scan_count desc objs ws wis = length (scan_ids desc objs ws wis).
+Proof. exact scan_count_ids. Qed.
+Print Assumptions c12_count_is_ids.
+
+Theorem c12_desc_only_reverses : forall objs ws wis,
+  scan_ids true objs ws wis = rev (scan_ids false objs ws wis).
+Proof. exact scan_desc_reverses. Qed.
+Print Assumptions c12_desc_only_reverses.
+
+(* non-vacuity: 5 is outside [1,(5 and inside [1,5]; a missing field is outside [0,(0;
+   "aB" == "Ab"; false < 0 < "a" < true < {} *)
+Example c12_where_nonvacuous :
+  let n z := {| v_kind := KNumber; v_data := []; v_num := Fin z |} in
+  let s d := {| v_kind := KString; v_data := d; v_num := Fin 0 |} in
+  let k kd d := {| v_kind := kd; v_data := d; v_num := Fin 0 |} in
+  match_field (where_make false (n 1000%Z) true (n 5000%Z)) (n 5000%Z) = false /\
+  match_field (where_make false (n 1000%Z) false (n 5000%Z)) (n 5000%Z) = true /\
+  match_field (where_make false (n 0%Z) true (n 0%Z)) (get_field [] [102]) = false /\
+  is_op (v_data (n 1000%Z)) = false /\
+  value_equals (s [97; 66]) (s [65; 98]) = true /\
+  value_less (k KFalse [102]) (n 0%Z) = true /\ value_less (n 0%Z) (s [97]) = true /\
+  value_less (s [97]) (k KTrue [116]) = true /\ value_less (k KTrue [116]) (k KJSON [123; 125]) = true.
+Proof. vm_compute. repeat split. Qed.
